@@ -212,9 +212,20 @@ def bundle_of(d):
     return b
 
 
-def write_fs(d, root, bundled=False):
+def write_fs(d, root, bundled=False, flat=False):
     t = d["type"]
     tdir = os.path.join(root, t)
+    if flat:
+        # legacy layout: <type>/<id>.json, in a type directory that ALSO holds a versioned entry
+        # <type>/<other id>/<file>.json (so the directory is searched as a versioned one, and the flat
+        # file is found by the backward-compatibility pass)
+        other = t + "--5d0092c5-5f74-4287-9642-33f4c354e56d"
+        os.makedirs(os.path.join(tdir, other), exist_ok=True)
+        with io.open(os.path.join(tdir, other, "v1.json"), "w", encoding="utf-8") as f:
+            json.dump(dict(d, id=other), f)
+        with io.open(os.path.join(tdir, d["id"] + ".json"), "w", encoding="utf-8") as f:
+            json.dump(d, f)
+        return
     if "modified" in d:
         odir = os.path.join(tdir, d["id"])
         fn = os.path.join(odir, "v1.json")
@@ -371,7 +382,7 @@ def run_entry(name, cfg, d):
 
         def f():
             root = fresh_dir()
-            write_fs(d, root, bundled=(wrap == "bundlefile"))
+            write_fs(d, root, bundled=(wrap == "bundlefile"), flat=(wrap == "flatfile"))
             s = C(root, **ck)
             if m == "query":
                 r = s.query([Filter("id", "=", oid)], **vk)
@@ -564,7 +575,24 @@ def op_bundle(c):
     return {"built": True, "class": clsname(B), "text": text, "via": {"parse": got}}
 
 
-OPS = {"registry": op_registry, "probe": op_probe, "detect": op_detect, "pick": op_pick,
+def op_order(c):
+    """History independence: the question (content, version `second`) asked through `entry` AFTER the same
+    content was parsed under version `first`, and the same question about a copy whose id this process has
+    never seen.  The ids are replaced by a placeholder in what is reported."""
+    def mask(o, ids):
+        t = json.dumps(o)
+        for i in ids:
+            t = t.replace(i, "<ID>")
+        return json.loads(t)
+    seen, fresh = c["seen"], c["fresh"]            # same content, two different ids of the same kind
+    ids = c["ids"]
+    prime = run_direct("parse", c["ac"], False, c["first"], c["prime"])
+    after, _ = run_entry(c["entry"], {"version": c["second"], "allow_custom": c["ac"]}, seen)
+    ref, _ = run_entry(c["entry"], {"version": c["second"], "allow_custom": c["ac"]}, fresh)
+    return {"prime": mask(prime, ids), "after": mask(after, ids), "fresh": mask(ref, ids)}
+
+
+OPS = {"order": op_order, "registry": op_registry, "probe": op_probe, "detect": op_detect, "pick": op_pick,
        "idcheck": op_idcheck, "own": op_own, "bundle": op_bundle}
 
 try:
